@@ -1,0 +1,17 @@
+//go:build verif
+
+package engine
+
+// Contracts for the deductive verifier in /verif (comment-only file, build tag verif).
+
+// C06, no request is executed before its variables were validated: every path of Execute that reaches the execution
+// context (planning and resolving follow) has called the variables validator - also when the request carries no
+// variables object at all (a declared variable of a non-null type without default is then an error)
+//@ func ExecutionEngine.Execute
+//@   requires e != nil && operation != nil
+//@   ghost var g_validated bool = false
+//@   at call VariablesValidator.ValidateWithRemap: ghost g_validated = true
+//@   at call newInternalExecutionContext: assert {variables.are.validated.before.the.request.is.executed} g_validated
+//@   at call Resolver.ResolveGraphQLDeferResponse: assume {the.engine.is.constructed.and.a.deferred.plan.carries.its.response} arg0 != nil && arg1 != nil && arg2 != nil && arg2.Response != nil
+//@   modifies *, count(*)
+//@   safety none
